@@ -11,6 +11,11 @@ props = [json.loads(l) for l in (V / "properties.jsonl").read_text().splitlines(
 THM = re.compile(r"^\s*theorem\s+([A-Za-z0-9_.']+)", re.M)
 
 
+def fix_commit(e):
+    m = re.search(r"fixed: property=\w+ ([0-9a-f]{7,})", e.get("what", ""))
+    return e.get("commit") or (m.group(1) if m else "?")
+
+
 def strip_comments(text):
     text = re.sub(r"/-.*?-/", "", text, flags=re.S)
     return re.sub(r"--.*", "", text)
@@ -42,7 +47,7 @@ for p in props:
     out.append("| %s | %s | %d | %s | %s | %s |" % (
         pid, "yes" if claimed else "no", len(thms),
         ", ".join(e["id"].replace(pid + "-", "") for e in openf) or "-",
-        ", ".join(f"{e['id'].replace(pid + '-', '')} ({e.get('commit', '?')})" for e in fixedf) or "-",
+        ", ".join(f"{e['id'].replace(pid + '-', '')} ({fix_commit(e)})" for e in fixedf) or "-",
         " ".join(caught) or "-"))
 out.append("")
 out.append("Seeded changes (each written by a fresh sub-agent that saw only the property text and a scratch worktree; "
